@@ -2,14 +2,14 @@
 # ./seed_eval.sh <property-id> <seed-name> <out-dir-of-agent> [tier]
 # Confirms a seeded change (compiles, suite green, demo fails with / passes without),
 # stores it under seeded/<name>/ and runs the property's check against it.
-id="$1"; name="$2"; src="$3"; tier="${4:-quick}"
+id="$1"; name="$2"; src="$3"; tier="${4:-quick}"; wtsrc="${5:-/tmp/seed_$1}"
 export GOFLAGS=-mod=mod GOPROXY=off GOSUMDB=off GOTOOLCHAIN=local GOWORK=off
 cd /verif || exit 2
 wt=/tmp/sv_$name
 git -C /repo worktree remove --force $wt 2>/dev/null
 git -C /repo worktree add -q $wt HEAD || exit 2
 demo=$(ls $src/*_test.go | head -1)
-pkgdir=$(grep -l "" /dev/null; cd /tmp/seed_$id 2>/dev/null && git status --short | grep '_test.go' | awk '{print $2}' | head -1 | xargs dirname)
+pkgdir=$(grep -l "" /dev/null; cd $wtsrc 2>/dev/null && git status --short | grep '_test.go' | awk '{print $2}' | head -1 | xargs dirname)
 [ -z "$pkgdir" ] && pkgdir=$(grep -m1 '^+++ b/' $src/patch.diff | sed 's|+++ b/||' | xargs dirname)
 res="confirmed"
 ( cd $wt && git apply $src/patch.diff ) || res="patch does not apply"
